@@ -624,3 +624,4 @@ LEVEL_NOTE = ("Trusted: Lean kernel, axioms <= {propext, Classical.choice, Quot.
               "the None entries a BinaryNode reports in `siblings` for empty slots are dropped before comparison. ancestors / descendants / "
               "leaves / siblings are compared as multisets by the tie (the theorems prove the exact order); node_path and go_to exactly.")
 RULE = RULE + ' Fourth session: BinaryNode moves of the histories also through the stealing left / right / children setters of the new parent.'
+RULE = RULE + ' Fifth session: go_to across two trees compared with the checks-off interpreter; descendants / leaves / ancestors consumed while another iteration of the same kind is alive, and inside a nested loop.'
